@@ -139,7 +139,7 @@ func argVectors(r *prng.R, f *Func, n int) [][]Value {
 	for i := 0; i < n; i++ {
 		v := make([]Value, len(f.Params))
 		for j, p := range f.Params {
-			if i < 6 {
+			if i < 6 && (i < 3 || len(f.Hints[p.Name]) == 0) {
 				b := boundaryCache[p.T]
 				switch i {
 				case 0:
@@ -156,6 +156,8 @@ func argVectors(r *prng.R, f *Func, n int) [][]Value {
 						v[j] = uintValue(p.T, maxOf(p.T))
 					}
 				}
+			} else if hs := f.Hints[p.Name]; len(hs) > 0 && r.Chance(11, 20) {
+				v[j] = hs[r.Intn(len(hs))]
 			} else {
 				v[j] = pickArg(r, p.T)
 			}
